@@ -557,12 +557,16 @@ class FlowDriver(MachineDriver):
             self.stat("confirmations_delivered")
             s["confirmed"] = True
             self.out.remove(s)
+            for x in self.out:
+                x["unrelated"] = True       # for the others this is a processed message that is not their confirmation
             self.port.feed((s["hdr"] + "P\r").encode())
         elif k == "lose":
             next(x for x in self.out if not x["lost"])["lost"] = True
             self.stat("responses_lost")
         elif k == "other":
             self.stat("unrelated_messages")
+            for x in self.out:
+                x["unrelated"] = True
             self.port.feed(b"-L:01\r" if self.n % 2 else b"/L:01\r")
 
     # ---- oracle ------------------------------------------------------------------------------
@@ -605,7 +609,11 @@ class FlowDriver(MachineDriver):
         if blockers:
             a = blockers[0]
             self.stat("unconfirmed_overtakes")
-            self.violate("flow:write-while-awaiting:%s-after-%s" % (kind, a["path"]),
+            sig = "flow:write-while-awaiting:%s-after-%s" % (kind, a["path"])
+            if kind == a["path"] == "send_and_wait_for_response_processed":
+                # both went through the no_response_waiting gate: was it opened by a message that is not the confirmation?
+                sig += "/gate-opened-by-unrelated-message" if a.get("unrelated") else "/gate-closed"
+            self.violate(sig,
                          "%r (%s) was written at t=%.3f while the confirmation %r of %r (written t=%.3f) has not arrived" %
                          (line, kind, t - self.t0, a["hdr"], a["cmd"], a["written"][-1] - self.t0))
         # order: the port sees the commands in the order in which they were queued
@@ -633,7 +641,7 @@ class FlowDriver(MachineDriver):
     def fingerprint(self):
         now = self.loop.time()
         c = self.comm
-        return (tuple((x["cmd"] and x["cmd"][:2], x["path"], len(x["written"]), x["confirmed"], x["lost"],
+        return (tuple((x["cmd"] and x["cmd"][:2], x["path"], len(x["written"]), x["confirmed"], x["lost"], x.get("unrelated", False),
                        tuple(r6(w - now) for w in x["written"]), r6(x["t"] - now)) for x in self.sub),
                 tuple(self.sub.index(s) for s in self.out),
                 simple_state(c, exclude=("send_queue", "tasks", "message_processors", "reader", "writer", "read_task", "write_task",
